@@ -165,7 +165,7 @@ Definition first_wakeups (w : list (comp * Z)) : option (Z * list comp) :=
 
 (* real time at which the tick for simulation time [when] is due *)
 Definition deadline (m : mstate) (when : Z) : Z :=
-  (m_real m + Z.max 0 ((when - m_tprev m) * den / num))%Z.
+  (m_real m + Z.max 0 (((when - m_tprev m) * den + num - 1) / num))%Z.
 
 (* simulation time corresponding to real time r *)
 Definition stamp (m : mstate) (r : Z) : Z := (m_tprev m + (r - m_real m) * num / den)%Z.
